@@ -32,7 +32,8 @@ Definition d_dollar := 2.          (* "$" only as socket prefix: typename = ["$"
 Definition d_group_rule := 3.      (* name = grpent is read as a type rule whenever the entry starts like a type *)
 Definition d_bytes_raw := 4.       (* '...' content is raw: no SESC / \' , any character but ' *)
 Definition d_bsqual_case := 5.     (* h / b64 prefixes are case-sensitive *)
-Definition d_cborseq := 6.         (* control names are matched as prefixes: "cbor" wins over "cborseq", no token boundary *)
+Definition d_cborseq := 6.         (* (repaired in 8d55c20, no longer part of all_deviations) control names matched as prefixes:
+                                      "cbor" won over "cborseq", no token boundary *)
 Definition d_radix_float := 7.     (* float mantissa is decimal only *)
 Definition d_bytes_key := 8.       (* byte-string literal as "value :" member key is rejected by the bridge *)
 Definition d_implicit_ws := 9.     (* pest's implicit skip admits blanks/comments where the RFC has no S *)
@@ -41,7 +42,7 @@ Definition d_ctrl_chars := 11.     (* control characters in text literals and co
 Definition d_escapes := 12.        (* \uXXXX and \u{X..} for any hex digits (surrogates, > 10FFFF) at GRAMMAR level; since 51d94c0
                                       the bridge rejects such literals, except inside #6.<type> / #7.<type>, whose type is never converted *)
 Definition d_paren_entry := 13.    (* a group entry starting with "(" is an inline group, whatever follows the ")" *)
-Definition all_deviations : N := 16382.   (* bits 1 .. 13 *)
+Definition all_deviations : N := 16318.   (* bits 1 .. 13 except 6 (repaired) *)
 
 Definition dash_dot : aexp := AAlts [L "-"; L "."].
 (* the crate's id stops where  (("-" | ".")? (EALPHA | DIGIT))*  stops *)
